@@ -14,6 +14,8 @@ from ..refsem import RefDomain, RefState, mentioned
 OBJECTS = {"o1": "t1", "o2": "t2", "o3": "t3"}
 OBJECTS_THOROUGH = {"o1": "t1", "o2": "t2", "o3": "t3", "o4": "t1"}
 OBJECTS_UNTYPED = {"o1": "object", "o2": "object"}
+# object names that are prefixes / extensions of one another, with digits, '-' and '_'
+OBJECTS_NAMES = {"o1": "t1", "o11": "t2", "o1-b": "t1", "o_1": "t3"}
 
 REQ = ("(:requirements :typing :negative-preconditions :equality :disjunctive-preconditions "
        ":universal-preconditions :numeric-fluents :conditional-effects)")
@@ -140,7 +142,10 @@ def pre_formulas(tier: str):
     for t in ("(and (q c ?x))", "(and (not (q c ?y)) (p ?x))", "(and (or (q c ?x) (q ?x c)))",
               "(and (<= (h ?x ?y) 0.5))", "(and (p ?x) (>= (h ?y ?x) 1))", "(and (or (r) (< (h ?x ?y) (g ?y))))",
               "(and (>= (h ?x c) 1))", "(and (< (h c ?y) (h ?y c)) (p c))",
-              "(and (p ?x) (p ?y))", "(and (not (p ?x)) (not (p ?y)) (r))", "(and (or (p ?x) (p ?y)) (p ?x))"):
+              "(and (p ?x) (p ?y))", "(and (not (p ?x)) (not (p ?y)) (r))", "(and (or (p ?x) (p ?y)) (p ?x))",
+              "(and (m c))", "(and (not (m c)) (p ?x))", "(and (or (m c) (q ?x c)))",   # constant of a proper subtype of the position's type
+              "(and (or (r) (>= (g ?x) 1)))", "(and (p ?x) (or (not (r)) (< (f) (g ?y))))",   # comparisons inside a disjunction
+              "(and (or (not (= ?x ?y)) (r)))", "(and (p ?x) (or (= ?x ?y) (q ?x ?y)))"):     # (in)equalities inside a disjunction
         yield t, ["extra"]
     for T, lz in LZ.items():
         for a in L10[:5]:
@@ -192,6 +197,8 @@ def pre_programs(tier: str):
     for text, tags in pre_formulas(tier):
         if compatible("xy", text):
             yield program("xy", text, eff, tags)
+    for text in NAMES_PRE:
+        yield program("xy", text, eff, ["names"], objects=OBJECTS_NAMES)
     for prof in ("xy-grouped", "x2y", "xy-untyped", "x", "none"):
         n_or = 0
         for text, tags in pre_formulas("quick"):
@@ -288,7 +295,17 @@ EXTRA_EFF = [  # constant before a variable; constants inside function terms; sa
     "(and (p ?y) (forall (?x - t2) (when (not (p ?x)) (q ?x ?y))))",
     "(and (forall (?z - t1) (when (not (q ?x ?z)) (p ?z))))",              # condition true for objects no fact mentions
     "(and (forall (?z - object) (when (not (m ?z)) (m ?z))))",
+    # two when-effects with one condition that differ only in their numeric part / only in their literals
+    "(and (when (r) (increase (f) 1)) (when (r) (decrease (g ?x) 1)))",
+    "(and (when (p ?x) (and (q ?x ?y) (increase (f) 1))) (when (p ?x) (and (q ?x ?y) (assign (g ?y) 2))))",
+    "(and (when (r) (p ?x)) (when (r) (p ?y)))",
+    "(and (m c) (when (m c) (not (p c))))",                                  # constant of a proper subtype of the position's type
+    "(and (when (or (r) (>= (g ?x) 1)) (not (r))))",                         # comparison inside a disjunctive condition
 ]
+NAMES_PRE = ["(and (not (p ?x)) (p ?y))", "(and (p ?x) (not (p ?y)))", "(and (not (q ?x ?y)) (q ?y ?x))", "(and (not (m ?x)))",
+             "(and (or (not (p ?x)) (q ?x ?y)))", "(and (forall (?z - t1) (or (not (p ?z)) (q ?x ?z))))"]
+NAMES_EFF = ["(and (not (p ?x)) (p ?y))", "(and (not (q ?x ?y)) (q ?y ?x))", "(and (when (not (p ?y)) (not (p ?x))))",
+             "(and (forall (?z - t1) (when (not (p ?z)) (not (q ?x ?z)))))", "(and (decrease (g ?x) 1) (increase (g ?y) 1))"]
 FINE = [  # right-hand sides whose exact value needs more than 4 decimals / is not a dyadic number
     "(and (increase (f) (* (g ?x) 0.0001)))",
     "(and (assign (g ?x) (+ (g ?x) (* (f) 0.00001))))",
@@ -340,6 +357,8 @@ def eff_programs(tier: str):
     for text in EXTRA_EFF:
         for prof in ("xy", "x2y"):
             yield program(prof, "(and)", text, ["extra"])
+    for text in NAMES_EFF:
+        yield program("xy", "(and)", text, ["names"], objects=OBJECTS_NAMES)
     for text, tags in eff_formulas(tier):
         if compatible("xy", text):
             yield program("xy", "(and)", text, tags)
